@@ -105,3 +105,7 @@ Example ex_supports_sorted :
 Proof.
   vm_compute. repeat split; repeat constructor; discriminate.
 Qed.
+
+(* one level: lower_tri is the J<=I sub-list of the level pattern *)
+Example ex1_lower : nonzero [(3, 3)] [[(0, 1); (1, 0); (2, 2); (1, 2)]] true = Some [(1, 0); (2, 2)].
+Proof. vm_compute. reflexivity. Qed.
